@@ -23,6 +23,8 @@ structure DSt where
   xsel : Nat → Nat := fun _ => 0
   xreached : Nat → Bool := fun _ => false
   isX : Nat → Bool := fun _ => false
+  /-- ShiftMatching batches: howMany of one that waits for capMu -/
+  swant : Nat → Option (Nat × List Nat) := fun _ => none
 
 def upd {α : Type} (f : Nat → α) (b : Nat) (v : α) : Nat → α := fun x => if x = b then v else f x
 
@@ -30,6 +32,7 @@ def tail (d : DSt) : String :=
   let mu := if d.s.capMu.isSome then "held" else "free"
   let fid := if !d.cfg.countAfterLock then "C12-count-before-capmu"
     else if !d.cfg.createPreFalse then "C12-create-counts-as-prematched"
+    else if !d.cfg.expiredCountsAll then "C12-patchexpired-counts-expiring-records-only"
     else "C12-patchexpired-releases-capmu-early"
   s!"m={matching d.s} mu={mu}" ++ (if matching d.s > d.s.max then "\t#F:" ++ fid else "")
 
@@ -56,7 +59,7 @@ def xSelect (d : DSt) (b want : Nat) : Option (DSt × String) :=
     match act d1 (.first b) with
     | none => none   -- capMu is held by the other batch
     | some d2 =>
-      let budget := d2.s.max - matching d2.s
+      let budget := d2.s.max - (if d2.cfg.expiredCountsAll then matching d2.s else matchingExp d2.s)
       match act d2 (.second b) with
       | none => none
       | some d3 =>
@@ -78,9 +81,33 @@ def xSelect (d : DSt) (b want : Nat) : Option (DSt × String) :=
           some ({ d4 with fin := upd d4.fin b true }, s!"done patched=0 reached={reached}")
         else some (d3, s!"selected={keep.length}")
 
+/-- ShiftMatching{idle records, HowMany n} with the cap: one atomic step under capMu and the beacon lock
+    (mirrors beacon.ShiftMatching: budget = cap − matching bounds the number shifted) -/
+def idleNow (d : DSt) : List Nat :=
+  (List.range d.s.recs.length).filter fun k => d.s.present.getD k false && !(d.s.recs.getD k false)
+
+/-- `cands`: the gateway collects the records matching the call's filter (bucket candidates) when the RPC
+    arrives — BEFORE capMu is taken — and the selection under the locks only checks membership in that
+    set: a candidate that has stopped matching the filter meanwhile is shifted all the same. -/
+def doShift (d : DSt) (n : Nat) (cands : List Nat) : DSt × String :=
+  let idle := cands.filter fun k => d.s.present.getD k false
+  let budget := d.s.max - matching d.s
+  if n == 0 then (d, "shifted=0 reached=false") else
+  if budget == 0 then (d, "shifted=0 reached=true") else
+  let eff := if budget < n then budget else n
+  let take := idle.take eff
+  let reached := budget < n || idle.length > take.length
+  let d := take.foldl (fun d k => (act d (.delete k)).getD d) d
+  (d, s!"shifted={take.length} reached={reached}")
+
 /-- let a blocked batch in after the holder has left -/
 def unblock (d : DSt) (o : Nat) : DSt × String :=
   if !d.blocked o then (d, "") else
+  match d.swant o with
+  | some (n, cands) =>
+    let (d', msg) := doShift d n cands
+    ({ d' with blocked := upd d'.blocked o false, swant := upd d'.swant o none, fin := upd d'.fin o true }, s!" unblocked={o}@done {msg}")
+  | none =>
   match d.xwant o with
   | some want =>
     match xSelect { d with s := { d.s with batch := fun y => if y = o then Batch.empty else d.s.batch y } } o want with
@@ -94,18 +121,33 @@ def unblock (d : DSt) (o : Nat) : DSt × String :=
       (d', s!" unblocked={o}@{stopName d' o}")
     | none => (d, " unblocked-timeout")
 
+/-- capMu is free: the batches that wait for it get it one after the other — in the observed order
+    where the model allows it, else lowest number first — until one of them stops while holding it -/
+def unblockAll (d : DSt) (obs : List Nat) : Nat → DSt × String
+  | 0 => (d, "")
+  | fuel + 1 =>
+    if d.s.capMu.isSome then (d, "") else
+    let waiting := [1, 2, 3].filter (fun o => d.blocked o)
+    match (match obs with | o :: _ => if waiting.contains o then some o else waiting.head? | [] => waiting.head?) with
+    | none => (d, "")
+    | some o =>
+      let (d1, m1) := unblock d o
+      if d1.blocked o then (d1, m1) else
+      let (d2, m2) := unblockAll d1 (obs.drop 1) fuel
+      (d2, m1 ++ m2)
+
 /-- perform the last patch's successor: the deferred unlock, and let a blocked batch in -/
-def finish (d : DSt) (b : Nat) : DSt × String :=
+def finish (d : DSt) (b : Nat) (obs : List Nat := []) : DSt × String :=
   let d := (act d (.unlock b)).getD d
   let d := { d with fin := upd d.fin b true }
   let msg := if d.isX b then s!"done patched={d.xsel b} reached={d.xreached b}"
     else
       let rs := ",".intercalate (d.results b)
       s!"done r=[{rs}] reached={(d.results b).contains "X"}"
-  let (d, u) := unblock d (3 - b)
+  let (d, u) := unblockAll d obs 4
   (d, msg ++ u)
 
-def stepBatch (d : DSt) (b : Nat) : DSt × String :=
+def stepBatch (d : DSt) (b : Nat) (obs : List Nat := []) : DSt × String :=
   let x := d.s.batch b
   match x.pc with
   | .ready =>
@@ -120,7 +162,7 @@ def stepBatch (d : DSt) (b : Nat) : DSt × String :=
     if d.isX b then
       -- the per-record patches of a PatchExpired run to the end of the call
       let d := x.todo.foldl (fun d _ => (act d (.patch b)).getD d) d
-      finish d b
+      finish d b obs
     else
     let before := x.rejected
     let nfBefore := x.notFound
@@ -131,7 +173,7 @@ def stepBatch (d : DSt) (b : Nat) : DSt × String :=
         else if (d'.s.batch b).notFound > nfBefore then "N"
         else if wasThere then "P" else "C"
       let d' := { d' with results := upd d'.results b (d'.results b ++ [r]) }
-      if (d'.s.batch b).todo.isEmpty then finish d' b else (d', "patch")
+      if (d'.s.batch b).todo.isEmpty then finish d' b obs else (d', "patch")
     | none => (d, "skip")
   | _ => (d, "skip")
 
@@ -147,14 +189,15 @@ def stepLine (d : DSt) (line : String) : DSt × String :=
     match m.toNat? with
     | none => (d, "bad-op")
     | some mx =>
-      let d := { d with s := initP (recs.map (· == "1")) (recs.map (· != "-")) mx, started := true,
+      -- (every record the harness creates at `init` carries an expiry; records created later do not)
+      let d := { d with s := initE (recs.map (· == "1")) (recs.map (· != "-")) (recs.map (· != "-")) mx, started := true,
                         expiredRec := recs.map (· != "-") }
       (d, s!"init {tail d}")
   | "submit" :: bs :: ps =>
     match bs.toNat? with
     | none => (d, "skip")
     | some b =>
-      if !d.started || ps.isEmpty || b < 1 || b > 2 || (d.s.batch b).pc != .idle || d.isX b || (d.xwant b).isSome then (d, "skip") else
+      if !d.started || ps.isEmpty || b < 1 || b > 3 || (d.s.batch b).pc != .idle || d.isX b || (d.xwant b).isSome || (d.swant b).isSome || d.fin b then (d, "skip") else
       let patches := ps.filterMap parsePatch
       let a := if ps.contains "c=a" then Act.submitCreate b patches true
                else if ps.contains "c=i" then Act.submitCreate b patches false
@@ -165,7 +208,7 @@ def stepLine (d : DSt) (line : String) : DSt × String :=
   | ["xsubmit", bs, ns] =>
     match bs.toNat?, ns.toNat? with
     | some b, some want =>
-      if !d.started || b < 1 || b > 2 || (d.s.batch b).pc != .idle || d.isX b || (d.xwant b).isSome then (d, "skip") else
+      if !d.started || b < 1 || b > 3 || (d.s.batch b).pc != .idle || d.isX b || (d.xwant b).isSome || (d.swant b).isSome || d.fin b then (d, "skip") else
       match xSelect d b want with
       | some (d', msg) => (d', s!"xsubmit {b} {msg} {tail d'}")
       | none =>
@@ -178,29 +221,231 @@ def stepLine (d : DSt) (line : String) : DSt × String :=
     | some n =>
       if !d.started then (d, "skip") else
       if d.s.capMu.isSome then (d, "busy") else
-      -- mirrors beacon.ShiftMatching: budget = cap − matching bounds the number shifted
-      let idle := (List.range d.s.recs.length).filter fun k => d.s.present.getD k false && !(d.s.recs.getD k false)
-      let budget := d.s.max - matching d.s
-      if n == 0 then (d, s!"shift {n} shifted=0 reached=false {tail d}") else
-      if budget == 0 then (d, s!"shift {n} shifted=0 reached=true {tail d}") else
-      let eff := if budget < n then budget else n
-      let take := idle.take eff
-      let reached := budget < n || idle.length > take.length
-      let d := take.foldl (fun d k => (act d (.delete k)).getD d) d
-      (d, s!"shift {n} shifted={take.length} reached={reached} {tail d}")
-  | ["step", bs] =>
+      let (d, msg) := doShift d n (idleNow d)
+      (d, s!"shift {n} {msg} {tail d}")
+  | ["ssubmit", bs, ns] =>
+    match bs.toNat?, ns.toNat? with
+    | some b, some n =>
+      if !d.started || b < 1 || b > 3 || (d.s.batch b).pc != .idle || d.isX b || (d.xwant b).isSome || (d.swant b).isSome || d.fin b then (d, "skip") else
+      if d.s.capMu.isSome then
+        let d := { d with blocked := upd d.blocked b true, swant := upd d.swant b (some (n, idleNow d)) }
+        (d, s!"ssubmit {b} blocked {tail d}")
+      else
+        let (d, msg) := doShift d n (idleNow d)
+        let d := { d with fin := upd d.fin b true }
+        (d, s!"ssubmit {b} done {msg} {tail d}")
+    | _, _ => (d, "skip")
+  | "step" :: bs :: obs =>
     match bs.toNat? with
     | none => (d, "skip")
     | some b =>
       if d.fin b || d.blocked b || (d.s.batch b).pc == .idle || (d.s.batch b).pc == .done then (d, "skip") else
-      let (d', msg) := stepBatch d b
+      -- `u=2,3`: the order in which the waiting batches were observed to get capMu
+      let order := match obs with
+        | [u] => if u.startsWith "u=" then ((u.drop 2).toString.splitOn ",").filterMap (·.toNat?) else []
+        | _ => []
+      let (d', msg) := stepBatch d b order
       if msg == "skip" then (d', "skip") else (d', s!"step {b} {msg} {tail d'}")
   | _ => (d, "bad-op")
 
+/-! ### Trace inclusion (domain C12s): replay a log of genuinely concurrent Cap-bearing RPCs.
+    Batch lines are logged by the RPC's goroutine while it holds capMu.  A `Delete` takes no cap
+    lock: it is bracketed by `dpre` / `dpost`, and a count in between may or may not have seen it —
+    the model takes its `delete` step at `dpost` at the latest, earlier when a count proves it. -/
+
+structure T12 where
+  cfg : Cfg
+  s : St := init [] 0
+  /-- Deletes in flight whose `delete` step the model has not taken yet -/
+  openDel : List Nat := []
+  /-- Deletes in flight taken early (the key, and that the record matched) -/
+  early : List Nat := []
+  /-- the PatchExpired call that holds capMu and has not reported its selection yet -/
+  xheld : Option Nat := none
+  xdone : List Nat := []
+  /-- a batch has taken capMu and has not reported its count yet: the count is read somewhere in
+      between, so a Delete that returns in this window may or may not have been seen -/
+  counting : Bool := false
+  /-- Deletes that returned inside the window (still listed in `openDel` until the count is known) -/
+  finished : List Nat := []
+
+def tfire (t : T12) (a : Act) : Option T12 := (step t.cfg t.s a).map (fun s' => { t with s := s' })
+def tfireAll (t : T12) (as : List Act) : Option T12 := as.foldlM tfire t
+
+def parsePatches (ws : List String) : Option (List (Nat × Bool)) :=
+  ws.mapM fun w => match w.splitOn ":" with
+    | [k, v] => k.toNat?.map (fun k => (k, v == "1"))
+    | _ => none
+
+/-- take `d` of the deletes in flight (matching records) now -/
+def takeEarly (t : T12) : Nat → Option T12
+  | 0 => some t
+  | d + 1 =>
+    match t.openDel.find? (fun k => t.s.recs.getD k false) with
+    | none => none
+    | some k =>
+      match tfire t (.delete k) with
+      | some t' => takeEarly { t' with openDel := t'.openDel.erase k, early := k :: t'.early } d
+      | none => none
+
+/-- the Delete of `k` has returned -/
+def applyDpost (t : T12) (k : Nat) : T12 :=
+  if t.early.contains k then { t with early := t.early.erase k } else
+  let t0 := { t with openDel := t.openDel.erase k }
+  -- a count saw one delete in flight and the model guessed another key: swap the guess
+  let t0 := match t0.early with
+    | k' :: rest =>
+      if t0.s.recs.getD k false then
+        { t0 with early := rest, openDel := k' :: t0.openDel,
+                  s := { t0.s with recs := t0.s.recs.set k' true, present := t0.s.present.set k' true } }
+      else t0
+    | [] => t0
+  (tfire t0 (.delete k)).getD t0
+
+/-- the count is known: the Deletes that returned while it was being taken are final now -/
+def closeWindow (t : T12) : T12 :=
+  let t' := t.finished.foldl applyDpost t
+  { t' with finished := [], counting := false }
+
+def expectResult (t : T12) (x : Batch) (k : Nat) (post : Bool) : String :=
+  let here := t.s.present.getD k false
+  if !here && !x.create then "N" else
+  let pre := if here then t.s.recs.getD k false else (if t.cfg.createPreFalse then false else x.seedMatches)
+  if !pre && post && x.budget == 0 then "X" else if here then "P" else "C"
+
+def tstep (t : T12) (line : String) : T12 × String :=
+  match words line with
+  | ["case", _] => ({ cfg := t.cfg }, line)
+  | "init" :: ms :: toks =>
+    match ms.toNat? with
+    | some m =>
+      -- (the stress harness gives r0..r5 an expiry, r6.. none)
+      let exp := (List.range toks.length).map (fun i => decide (i < 6) && toks.getD i "-" != "-")
+      ({ cfg := t.cfg, s := initE (toks.map (· == "1")) (toks.map (· != "-")) exp m }, "ok")
+    | none => (t, "bad-op")
+  | "submit" :: bs :: rest =>
+    match bs.toNat? with
+    | none => (t, "bad-op")
+    | some b =>
+      let (cr, ps) := match rest with
+        | "c=a" :: ps => (some true, ps)
+        | "c=i" :: ps => (some false, ps)
+        | ps => (none, ps)
+      match parsePatches ps with
+      | none => (t, "bad-op")
+      | some ps =>
+        match tfire t (match cr with | some sm => .submitCreate b ps sm | none => .submit b ps) with
+        | some t' => (t', "ok")
+        | none => (t, "bad submit")
+  | ["lock", bs] =>
+    match bs.toNat? with
+    | none => (t, "bad-op")
+    | some b =>
+      if t.xheld.isSome then (t, s!"bad lock: batch {b} holds capMu while PatchExpired call {t.xheld.getD 0} holds it") else
+      -- (count-then-lock shape: the lock is the batch's second statement)
+      match tfire t (if t.cfg.countAfterLock then .first b else .second b) with
+      | some t' => if t'.s.capMu == some b then ({ t' with counting := t.cfg.countAfterLock }, "ok") else (t', s!"bad lock: not the model's lock step")
+      | none => (t, s!"bad lock: batch {b} holds capMu while batch {(t.s.capMu.getD 0)} holds it in the model")
+  | ["count", bs, cs] =>
+    match bs.toNat?, cs.toNat? with
+    | some b, some c =>
+      let m := matching t.s
+      if c > m then (t, s!"bad count: {c} records counted, the model has {m} matching") else
+      match takeEarly t (m - c) with
+      | none => (t, s!"bad count: {c} records counted, the model has {m} matching and only {(t.openDel.filter (fun k => t.s.recs.getD k false)).length} of them are being deleted")
+      | some t1 =>
+        match tfire t1 (if t.cfg.countAfterLock then .second b else .first b) with
+        | some t2 => if (t2.s.batch b).counted == c then (closeWindow t2, "ok") else (closeWindow t2, "bad count")
+        | none => (t, "bad count: not a step")
+    | _, _ => (t, "bad-op")
+  | ["patched", bs, ks, r] =>
+    match bs.toNat?, ks.toNat? with
+    | some b, some k =>
+      let x := t.s.batch b
+      match x.todo with
+      | (k', post) :: _ =>
+        if k' != k then (t, s!"bad patched: batch {b} patches r{k}, the model's next key is r{k'}") else
+        let want := expectResult t x k post
+        match tfire t (.patch b) with
+        | some t' => if want == r then (t', "ok") else (t', s!"bad patched: r{k} → {r}, the model's four-cell rule gives {want} (budget {x.budget})")
+        | none => (t, "bad patched: not a step (the batch does not hold capMu / has not counted)")
+      | [] => (t, s!"bad patched: batch {b} has no patch left in the model")
+    | _, _ => (t, "bad-op")
+  | ["unlock", bs] =>
+    match bs.toNat?.bind (fun b => tfire t (.unlock b)) with
+    | some t' => (t', "ok")
+    | none => (t, "bad unlock: the batch has patches left / never locked")
+  | ["xsubmit", _, _] => (t, "ok")
+  | ["xlock", bs] =>
+    match bs.toNat? with
+    | none => (t, "bad-op")
+    | some b =>
+      if t.s.capMu.isSome || t.xheld.isSome then (t, s!"bad xlock: PatchExpired call {b} holds capMu while another batch holds it")
+      else ({ t with xheld := some b, counting := true }, "ok")
+  | "xkeys" :: bs :: ks =>
+    match bs.toNat?, ks.mapM (·.toNat?) with
+    | some b, some ks =>
+      if t.xheld != some b then (t, "bad xkeys: the call does not hold capMu") else
+      -- a Delete in flight that the call's count has already seen enlarges its budget
+      let short := ks.length - (t.s.max - (if t.cfg.expiredCountsAll then matching t.s else matchingExp t.s))
+      let t := (takeEarly t short).getD t
+      match tfireAll { t with xheld := none } [.submitExpired b ks, .first b, .second b] with
+      | none => (t, "bad xkeys: not a step")
+      | some t1 =>
+        let kept := (t1.s.batch b).todo.map (·.1)
+        if kept != ks then
+          (closeWindow t1, s!"bad xkeys: {ks.length} records selected, the budget allows {(t1.s.batch b).budget} (max {t1.s.max}, matching {matching t.s})")
+        else
+          -- the per-record patches run before capMu is released; nothing else can interleave
+          match tfireAll t1 (List.replicate ks.length (.patch b)) with
+          | some t2 => (closeWindow { t2 with xdone := b :: t2.xdone }, "ok")
+          | none => (t1, "bad xkeys: patches")
+    | _, _ => (t, "bad-op")
+  | ["xunlock", bs] =>
+    match bs.toNat? with
+    | none => (t, "bad-op")
+    | some b =>
+      if t.xdone.contains b then
+        match tfire t (.unlock b) with
+        | some t' => ({ t' with xdone := t'.xdone.erase b }, "ok")
+        | none => (t, "bad xunlock")
+      else if t.xheld == some b then (closeWindow { t with xheld := none }, "ok")   -- nothing was selected
+      else (t, "bad xunlock: the call does not hold capMu")
+  | ["dpre", ks] =>
+    match ks.toNat? with
+    | some k => ({ t with openDel := k :: t.openDel }, "ok")
+    | none => (t, "bad-op")
+  | ["dpost", ks] =>
+    match ks.toNat? with
+    | none => (t, "bad-op")
+    | some k =>
+      if t.counting && !t.early.contains k then ({ t with finished := k :: t.finished }, "ok")
+      else (applyDpost t k, "ok")
+  | "shift" :: ks =>
+    match ks.mapM (·.toNat?) with
+    | some ks =>
+      match tfireAll t (ks.map .delete) with
+      | some t' => (t', "ok")
+      | none => (t, "bad shift")
+    | none => (t, "bad-op")
+  | ["quiet", ms] =>
+    let fid := if !t.cfg.countAfterLock then "C12-count-before-capmu"
+      else if !t.cfg.createPreFalse then "C12-create-counts-as-prematched"
+      else if !t.cfg.expiredCountsAll then "C12-patchexpired-counts-expiring-records-only"
+      else "C12-patchexpired-releases-capmu-early"
+    if some (matching t.s) == ms.toNat? then (t, "ok" ++ (if matching t.s > t.s.max then "\t#F:" ++ fid else ""))
+    else (t, s!"bad quiet: {ms} records match, model {matching t.s}")
+  | ["hang"] => (t, "bad hang: an RPC never returned")
+  | _ => (t, "bad-op")
+
 def run (args : List String) : IO UInt32 := do
   let kv := parseArgs args
+  if arg kv "mode" == "trace" then
+    lineLoop tstep { cfg := { countAfterLock := arg kv "countAfterLock" == "yes", createPreFalse := arg kv "createPreFalse" != "no",
+                              expiredHoldsCapMu := arg kv "expiredHoldsCapMu" != "no", expiredCountsAll := arg kv "expiredCountsAll" == "yes" } }
+    return 0
   lineLoop stepLine { cfg := { countAfterLock := arg kv "countAfterLock" == "yes", createPreFalse := arg kv "createPreFalse" != "no",
-                                expiredHoldsCapMu := arg kv "expiredHoldsCapMu" != "no" } }
+                                expiredHoldsCapMu := arg kv "expiredHoldsCapMu" != "no", expiredCountsAll := arg kv "expiredCountsAll" == "yes" } }
   return 0
 
 end Driver.C12
